@@ -81,6 +81,8 @@ def exc_frame(exc: BaseException, outermost: bool = False) -> str:
             pick = fr
             if outermost:
                 break
+    if pick is None and getattr(exc, "in_lib_call", None):
+        return str(exc.in_lib_call)
     if pick is None and tb:
         pick = tb[-1]
     if pick is None:
@@ -89,6 +91,8 @@ def exc_frame(exc: BaseException, outermost: bool = False) -> str:
 
 
 def in_library(exc: BaseException) -> bool:
+    if getattr(exc, "in_lib_call", None):
+        return True
     return any(_LIBROOT in fr.filename for fr in traceback.extract_tb(exc.__traceback__))
 
 
@@ -120,6 +124,17 @@ def lib(fn, *args, **kwargs):
         raise  # handled by the worker (hang|<frame> failure, or harness error outside library code)
     except BaseException as e:  # noqa: BLE001 - any exception type is a library outcome
         return None, LibRaised(e)
+
+
+def lib_delegating(tag: str, fn, *args, **kwargs):
+    """lib() for library entry points that hand the work to a standard-library object they configure (vmtar.open returns a
+    tarfile.TarFile): a per-case CPU budget overrun inside the call is charged to the library although no library frame is on
+    the stack at that moment."""
+    try:
+        return lib(fn, *args, **kwargs)
+    except CaseTimeout as e:
+        e.in_lib_call = tag
+        raise
 
 
 def first_diff(a: bytes, b: bytes) -> int:
